@@ -17,7 +17,7 @@ for P in "$@"; do
   echo "[$P] $(jq -r "select(.id==\"$P\") | .title" /verif/properties.jsonl)"
   echo "  $(jq -r "select(.id==\"$P\") | .statement" /verif/properties.jsonl)"
   echo "  Quantified over: $(jq -r "select(.id==\"$P\") | .quantifier.text" /verif/properties.jsonl)"
-  if [ "$P" = C07 ]; then echo; echo "  The 'deliberate, documented departures' that count as part of the rules for C07 (do not report these):"; sed -n '/^### 5.1 C07/,/^### 5.2/p' /verif/DESIGN.md | sed '1d;$d' | sed 's/^/    /'; echo "    Also out of scope (known spec/upstream disagreements): create events whose content room_version is unrecognised; create content creator != sender; third-party invites with banned target / top-level public_key only / other sender; previous membership knock in versions < 7; knock_restricted in v8-9; a notification level equal to the sender's level; power levels beyond 2^53; float or huge-exponent levels in v1-9; JSON null as a level in v10+; redacts without colon in v1/v2."; fi
+  if [ "$P" = C07 ]; then echo; echo "  The 'deliberate, documented departures' that count as part of the rules for C07 (do not report these):"; sed -n '/^### 5.1 C07/,/^### 5.2/p' /verif/DESIGN.md | sed '1d;$d' | sed 's/^/    /'; echo "    Also out of scope (known spec/upstream disagreements): create events whose content room_version is unrecognised; create content creator != sender; third-party invites with banned target / top-level public_key only / other sender; previous membership knock in versions < 7; knock_restricted in v8-9; a notification level equal to the sender's level; power levels beyond 2^53; float or huge-exponent levels in v1-9; JSON null as a level in v1-9; redacts without colon in v1/v2."; fi
   if [ "$P" = C10 ]; then echo; echo "  The refinements that are part of the definition for C10 (do not report these):"; sed -n '/^### 5.2 C10/,/^### 5.3/p' /verif/DESIGN.md | sed '1d;$d' | sed 's/^/    /'; fi
 done
 cat <<EOT
